@@ -139,3 +139,350 @@ Example ex_hit_chase :
   = Some (mk_hdr 4242 true 0 false false true true false false false 0, false)
   /\ hit_wire [ex_alias] ex_client = Some (mk_hdr 4242 true 0 false false true true false true false 0, true).
 Proof. split; reflexivity. Qed.
+
+(* ================================================================== *)
+(* Session 5 — the Msg-path producers of the cache (Model.produce_msg) and the question section of
+   every product: what the edns layer's theorems ask of "downstream" (dn_echo) is PROVED for the
+   cache, so the clauses hold end to end with the cache as the downstream, no premise left. *)
+
+Lemma set_hrcode_fields h rc :
+  h_id (set_hrcode h rc) = h_id h /\ h_qr (set_hrcode h rc) = h_qr h /\ h_opcode (set_hrcode h rc) = h_opcode h
+  /\ h_aa (set_hrcode h rc) = h_aa h /\ h_rd (set_hrcode h rc) = h_rd h /\ h_cd (set_hrcode h rc) = h_cd h
+  /\ h_ad (set_hrcode h rc) = h_ad h /\ h_ra (set_hrcode h rc) = h_ra h /\ h_tc (set_hrcode h rc) = h_tc h.
+Proof. destruct h; cbn; repeat split. Qed.
+
+(* the fields the alias chase never touches *)
+Definition same_but_ad_rcode (a b : hdr) : Prop :=
+  h_id a = h_id b /\ h_qr a = h_qr b /\ h_opcode a = h_opcode b /\ h_aa a = h_aa b /\ h_tc a = h_tc b
+  /\ h_rd a = h_rd b /\ h_ra a = h_ra b /\ h_z a = h_z b /\ h_cd a = h_cd b.
+Lemma same_refl a : same_but_ad_rcode a a.
+Proof. unfold same_but_ad_rcode. repeat split. Qed.
+Lemma same_trans a b c : same_but_ad_rcode a b -> same_but_ad_rcode b c -> same_but_ad_rcode a c.
+Proof. unfold same_but_ad_rcode. intuition congruence. Qed.
+Lemma same_set_ad h v : same_but_ad_rcode (set_ad h v) h.
+Proof. destruct h; unfold same_but_ad_rcode; cbn; repeat split. Qed.
+Lemma same_set_hrcode h v : same_but_ad_rcode (set_hrcode h v) h.
+Proof. destruct h; unfold same_but_ad_rcode; cbn; repeat split. Qed.
+
+Lemma msg_chase_same subs : forall h, same_but_ad_rcode (msg_chase h subs) h.
+Proof.
+  induction subs as [|s r IH]; intros h; cbn [msg_chase]; [apply same_refl|].
+  set (h1 := if s_recs s && h_ad h && negb (s_ad s) then set_ad h false else h).
+  assert (H1 : same_but_ad_rcode h1 h) by (unfold h1; destruct (_ && _ && _); [apply same_set_ad|apply same_refl]).
+  destruct (s_rcode s =? rcode_nxdomain).
+  - eapply same_trans; [apply same_set_hrcode|exact H1].
+  - eapply same_trans; [apply IH|exact H1].
+Qed.
+
+(* the sub-responses the chase consumes: up to and including the first NXDOMAIN *)
+Fixpoint chase_taken (subs : list sub) : list sub :=
+  match subs with
+  | [] => []
+  | s :: r => if s_rcode s =? rcode_nxdomain then [s] else s :: chase_taken r
+  end.
+
+(* AD survives the chase only if the entry's message had it and every consumed sub-response that
+   brought records had it too *)
+Lemma msg_chase_ad subs : forall h,
+  h_ad (msg_chase h subs) = true ->
+  h_ad h = true /\ forall s, In s (chase_taken subs) -> s_recs s = true -> s_ad s = true.
+Proof.
+  induction subs as [|s r IH]; intros h; cbn [msg_chase chase_taken]; [intros H; split; [exact H|intros ? []]|].
+  set (h1 := if s_recs s && h_ad h && negb (s_ad s) then set_ad h false else h).
+  assert (H1 : h_ad h1 = true -> h_ad h = true /\ (s_recs s = true -> s_ad s = true)).
+  { unfold h1. destruct (s_recs s) eqn:Er, (h_ad h) eqn:Ea, (s_ad s) eqn:Es; cbn [andb negb]; intros H.
+    all: try discriminate.
+    all: try (destruct (set_ad_fields h false) as (_&_&_&_&_&_&E&_); rewrite E in H; discriminate).
+    all: try (rewrite Ea in H; discriminate).
+    all: split; [reflexivity|intros; reflexivity || discriminate]. }
+  destruct (s_rcode s =? rcode_nxdomain).
+  - intros H. destruct (set_hrcode_fields h1 rcode_nxdomain) as (_&_&_&_&_&_&E&_). rewrite E in H.
+    destruct (H1 H) as [Ha Hs]. split; [exact Ha|]. intros x [<-|[]]. exact Hs.
+  - intros H. destruct (IH h1 H) as [Ha Hr]. destruct (H1 Ha) as [Hh Hs]. split; [exact Hh|].
+    intros x [<-|Hx]; [exact Hs|apply Hr; exact Hx].
+Qed.
+
+(* every Msg-path route: the header comes from the request — QR set, ID and opcode echoed, AA clear;
+   for the opcode-0 requests the edns layer lets through, CD is echoed and, unless the query is
+   refused for RD = 0, so is RD *)
+Lemma produce_msg_header p q h :
+  produce_msg p q = Some h ->
+  h_qr h = true /\ h_id h = h_id q /\ h_opcode h = h_opcode q /\ h_aa h = false
+  /\ (h_opcode q = 0 -> h_cd h = h_cd q)
+  /\ (h_opcode q = 0 -> p <> MNoRec -> h_rd h = h_rd q).
+Proof.
+  destruct p as [st subs|stc| |]; cbn [produce_msg].
+  - intros H. inversion H; subst. destruct (msg_chase_same subs (to_msg_hdr st q)) as (->&->&->&->&_&->&_&_&->).
+    cbn. repeat split; intros E; rewrite E; cbn; auto.
+  - destruct (h_cd q) eqn:Ec; [discriminate|]. intros H. inversion H; subst. cbn. repeat split; intros E; try rewrite E; cbn; auto.
+  - intros H. inversion H; subst. cbn. repeat split; intros E; rewrite E; cbn; auto.
+  - destruct (h_rd q); [discriminate|]. intros H. inversion H; subst. cbn. repeat split; intros E; try rewrite E; cbn; auto.
+    all: try (intros C; exfalso; apply C; reflexivity).
+Qed.
+
+(* AD on the Msg path: never for a CD client; for an entry-based answer only if the entry was
+   stored validated and every consumed sub-response that brought records was validated *)
+Lemma produce_msg_ad st subs q h :
+  produce_msg (MEntry st subs) q = Some h -> h_ad h = true ->
+  h_cd q = false /\ h_ad st = true /\ forall s, In s (chase_taken subs) -> s_recs s = true -> s_ad s = true.
+Proof.
+  cbn [produce_msg]. intros H Ha. inversion H; subst. destruct (msg_chase_ad _ _ Ha) as [H0 Hs].
+  unfold to_msg_hdr in H0. cbn in H0. destruct (h_cd q); [discriminate|]. auto.
+Qed.
+Lemma produce_msg_ad_cd p q h : produce_msg p q = Some h -> h_cd q = true -> h_ad h = false.
+Proof.
+  destruct p as [st subs|stc| |]; cbn [produce_msg]; intros H Hc.
+  - inversion H; subst. destruct (h_ad (msg_chase (to_msg_hdr st q) subs)) eqn:E; [|reflexivity].
+    destruct (msg_chase_ad _ _ E) as [H0 _]. unfold to_msg_hdr in H0. cbn in H0. rewrite Hc in H0. discriminate.
+  - rewrite Hc in H. discriminate.
+  - inversion H. reflexivity.
+  - destruct (h_rd q); [discriminate|]. inversion H. reflexivity.
+Qed.
+
+(* "the same rules on bytes", cache side: for the opcode-0 requests that reach the cache, the byte
+   path and the Msg path hand the writer chain the same header —
+   an entry / an alias chain completed from cached hops, the RFC 8020 cut (the stored proof message
+   carries neither TC nor Z: the byte template has no flags at all), the RFC 9520 failure *)
+Lemma to_msg_is_hit_wire st q :
+  h_opcode q = 0 -> hit_wire [st] q = Some (to_msg_hdr st q, h_ad (to_msg_hdr st q)).
+Proof.
+  intros E. destruct st as [i qr op aa tc rd ra z ad cdh rc], q as [qi qqr qop qaa qtc qrd qra qz qad qcd qrc].
+  cbn in E. subst qop. unfold hit_wire, hit_ad, to_msg_hdr, set_reply_on, apply_reply, set_ad. cbn.
+  destruct ad, qcd; reflexivity.
+Qed.
+
+Lemma set_ad_same h : set_ad h (h_ad h) = h.
+Proof. destruct h; reflexivity. Qed.
+Lemma set_ad_set_ad h a b : set_ad (set_ad h a) b = set_ad h b.
+Proof. destruct h; reflexivity. Qed.
+
+(* the sub-pipeline answering every hop from the cache: the chase leaves everything but AD alone, and
+   AD is the conjunction over the hops *)
+Lemma msg_chase_hops cd : forall hops h,
+  Forall (fun x => h_rcode x <> rcode_nxdomain) hops ->
+  msg_chase h (map (sub_of_hop cd) hops) = set_ad h (h_ad h && forallb (fun x => h_ad x && negb cd) hops).
+Proof.
+  induction hops as [|x r IH]; intros h Hf.
+  - cbn. rewrite andb_true_r, set_ad_same. reflexivity.
+  - inversion Hf as [|? ? Hx Hr]; subst. cbn [map msg_chase sub_of_hop s_recs s_ad s_rcode forallb].
+    destruct (h_rcode x =? rcode_nxdomain) eqn:En; [apply N.eqb_eq in En; contradiction|].
+    rewrite IH by exact Hr. cbn [andb].
+    destruct (h_ad h) eqn:Ea, (h_ad x && negb cd) eqn:Ex; cbn [andb negb].
+    + rewrite Ea. reflexivity.
+    + rewrite set_ad_set_ad. destruct (set_ad_fields h false) as (_&_&_&_&_&_&->&_). reflexivity.
+    + rewrite Ea. reflexivity.
+    + rewrite Ea. reflexivity.
+Qed.
+
+Lemma forallb_and_true {A} (f : A -> bool) l : forallb (fun x => f x && true) l = forallb f l.
+Proof. induction l as [|x r IH]; cbn; [reflexivity|]. rewrite IH, andb_true_r. reflexivity. Qed.
+
+Lemma chase_paths_agree alias hops q :
+  h_opcode q = 0 -> Forall (fun x => h_rcode x <> rcode_nxdomain) hops ->
+  option_map fst (hit_wire (alias :: hops) q) = produce_msg (MEntry alias (map (sub_of_hop (h_cd q)) hops)) q.
+Proof.
+  intros E Hf. cbn [hit_wire produce_msg option_map fst]. f_equal. rewrite msg_chase_hops by exact Hf.
+  destruct alias as [i qr op aa tc rd ra z ad cdh rc], q as [qi qqr qop qaa qtc qrd qra qz qad qcd qrc]. cbn in E. subst qop.
+  unfold hit_ad, to_msg_hdr, set_reply_on, apply_reply, set_ad. cbn. f_equal.
+  destruct qcd; cbn.
+  - rewrite andb_false_r. reflexivity.
+  - rewrite andb_true_r, forallb_and_true. reflexivity.
+Qed.
+
+Lemma cut_paths_agree stc q :
+  h_opcode q = 0 -> h_tc stc = false -> h_z stc = false ->
+  option_map fst (produce PCut q) = produce_msg (MCut stc) q.
+Proof.
+  intros E Ht Hz. cbn [produce produce_msg]. destruct (h_cd q) eqn:Ec; [reflexivity|]. cbn. f_equal.
+  destruct q; cbn in *. subst. cbn. rewrite Ht, Hz. reflexivity.
+Qed.
+
+Lemma failure_paths_agree q : h_opcode q = 0 -> option_map fst (produce PFailure q) = produce_msg MFailure q.
+Proof. intros E. cbn. f_equal. destruct q; cbn in *. subst. reflexivity. Qed.
+
+(* ---- dn_echo discharged for the cache ---- *)
+Lemma firstn1_single {A} (l : list A) : length l = 1%nat -> firstn 1 l = l.
+Proof. destruct l as [|x [|y r]]; cbn; intros H; try discriminate; reflexivity. Qed.
+
+Lemma cache_msg_product_dn_echo p q d h :
+  length (m_q q) = 1%nat -> produce_msg p (m_hdr q) = Some h -> m_hdr d = h -> m_q d = product_q q -> dn_echo q d.
+Proof.
+  intros Hl Hp Hd Hq. destruct (produce_msg_header _ _ _ Hp) as (H1 & H2 & H3 & _). unfold dn_echo. rewrite Hd, Hq.
+  unfold product_q. rewrite firstn1_single by exact Hl. auto.
+Qed.
+Lemma cache_wire_product_dn_echo p q d h iad :
+  length (m_q q) = 1%nat -> produce p (m_hdr q) = Some (h, iad) -> m_hdr d = h -> m_q d = product_q q -> dn_echo q d.
+Proof.
+  intros Hl Hp Hd Hq. destruct (produce_header _ _ _ _ Hp) as (H1 & H2 & H3 & _). unfold dn_echo. rewrite Hd, Hq.
+  unfold product_q. rewrite firstn1_single by exact Hl. auto.
+Qed.
+
+(* end to end, Msg path: the real routes of the cache behind the whole message entry
+   (Server.serveMsgBy -> edns -> cache product -> ResponseWriter.WriteMsg -> transport), every clause
+   of the statement that the edns theorems state under dn_echo, now without it *)
+Lemma cache_reply_respects_client_l tr c q strict p d h clen r :
+  length (m_q q) = 1%nat ->
+  produce_msg p (m_hdr q) = Some h -> m_hdr d = h -> m_q d = product_q q ->
+  serve_msg tr c q strict (Some d) clen = Some r ->
+  hdr_echo tr q r = true
+  /\ (is_bare_reject r = true \/ quest_echo q r = true)
+  /\ (has_opt r = true -> client_opt q <> None)
+  /\ (client_do q = false -> asked_rrsig q = false -> no_dnssec r = true)
+  /\ (h_cd (m_hdr q) = true \/ (client_do q = false /\ h_ad (m_hdr q) = false) ->
+      is_bare_reject r = true \/ h_ad (m_hdr r) = false).
+Proof.
+  intros Hl Hp Hd Hq Hs.
+  assert (He : forall d0, Some d = Some d0 -> dn_echo q d0).
+  { intros d0 E. inversion E; subst d0. eapply cache_msg_product_dn_echo; eauto. }
+  split; [eapply qr_id_opcode_echo_msg_l; eauto|].
+  split; [eapply question_echo_l; eauto|].
+  split; [eapply no_opt_unless_asked_l; eauto|].
+  split; [intros; eapply no_dnssec_l; eauto|].
+  intros; eapply ad_clear_l; eauto.
+Qed.
+
+(* byte path: the question the cache put into the body is the one that leaves *)
+Lemma write_wire_q tr c w d iad hasd ede blen r :
+  write_wire tr c w d iad hasd ede blen = Some r -> m_q r = m_q d.
+Proof.
+  unfold write_wire. destruct (negb (w_do w) && hasd); [discriminate|].
+  destruct (w_noedns w); destruct (is_udp tr && _); try discriminate; intros H; inversion H;
+    destruct (w_noad w && iad); reflexivity.
+Qed.
+Lemma hit_quest_echo_l tr c w q d iad hasd ede blen r :
+  m_q d = product_q q -> write_wire tr c w d iad hasd ede blen = Some r -> quest_echo q r = true.
+Proof.
+  intros Hq Hw. unfold quest_echo. rewrite (write_wire_q _ _ _ _ _ _ _ _ _ Hw), Hq. apply list_eqb_refl, quest_eqb_refl.
+Qed.
+
+(* non-vacuity: the validated alias of ex_hit_chase completed on the Msg path — an unvalidated
+   target clears AD, an NXDOMAIN target becomes the rcode; and the two paths agree *)
+Example ex_msg_chase :
+  produce_msg (MEntry ex_alias [sub_of_hop false ex_target]) ex_client
+  = Some (mk_hdr 4242 true 0 false false true true false false false 0)
+  /\ produce_msg (MEntry ex_alias [mk_sub true 3 true]) ex_client
+     = Some (mk_hdr 4242 true 0 false false true true false true false 3)
+  /\ produce_msg (MEntry ex_alias []) ex_client = option_map fst (hit_wire [ex_alias] ex_client)
+  /\ produce_msg MNoRec (mk_hdr 9 false 0 false false false false false false true 0)
+     = Some (mk_hdr 9 true 0 false false true true false false true 2).
+Proof. repeat split; reflexivity. Qed.
+
+(* ---- the byte path, end to end (session 5) ---- *)
+Lemma write_wire_shape tr c w d iad hasd ede blen r :
+  write_wire tr c w d iad hasd ede blen = Some r ->
+  (negb (w_do w) && hasd = false)
+  /\ m_an r = m_an d /\ m_ns r = m_ns d
+  /\ ((w_noedns w = true /\ m_ex r = m_ex d /\ (is_udp tr = true -> blen <= w_size w))
+      \/ (w_noedns w = false /\ m_ex r = m_ex d ++ [XO (wire_opt c w ede)]
+          /\ (is_udp tr = true -> blen + opt_len (wire_opt c w ede) <= w_size w))).
+Proof.
+  unfold write_wire. destruct (negb (w_do w) && hasd); [discriminate|]. intros H0. split; [reflexivity|]. revert H0.
+  destruct (w_noedns w).
+  - destruct (is_udp tr) eqn:Eu; cbn [andb].
+    + destruct (w_size w <? blen) eqn:Es; [discriminate|]. apply N.ltb_ge in Es. intros HH. inversion HH.
+      destruct (w_noad w && iad); cbn; repeat split; left; repeat split; auto.
+    + intros HH. inversion HH. destruct (w_noad w && iad); cbn; repeat split; left; repeat split; auto; discriminate.
+  - destruct (is_udp tr) eqn:Eu; cbn [andb].
+    + destruct (w_size w <? blen + opt_len (wire_opt c w ede)) eqn:Es; [discriminate|]. apply N.ltb_ge in Es. intros HH. inversion HH.
+      destruct (w_noad w && iad); cbn; repeat split; right; repeat split; auto.
+    + intros HH. inversion HH. destruct (w_noad w && iad); cbn; repeat split; right; repeat split; auto; discriminate.
+Qed.
+
+Lemma wire_opt_option_ok tr c q strict ede e :
+  let w := mk_wstate tr strict q (set_edns0 c q) in
+  cfg_wf c -> client_ver q = 0 -> w_noedns w = false ->
+  (forall x, ede = Some x -> e_code x = code_ede) ->
+  In e (o_opts (wire_opt c w ede)) ->
+  own_option_ok tr c (client_opt q) e = true /\ e_code e <> code_ecs.
+Proof.
+  intros w Hw Hv Hn He Hi. unfold w in *. rewrite wstate_noedns in Hn by exact Hv.
+  destruct (client_opt q) as [o|] eqn:E; [|discriminate].
+  assert (Hvo : o_ver o = 0) by (unfold client_ver in Hv; rewrite E in Hv; exact Hv).
+  rewrite (set_edns0_opt c q o E Hvo) in Hi. cbn [wire_opt o_opts] in Hi.
+  apply in_app_or in Hi. destruct Hi as [Hi|Hi].
+  - apply in_own_opts in Hi. cbn in Hi. destruct Hi as [[H1 ->]|[H1 H2]].
+    + split; [apply own_cookie_ok; exact H1|discriminate].
+    + split; [eapply own_nsid_ok; eauto|]. destruct Hw as [_ Hn']. rewrite (Hn' e H2). discriminate.
+  - apply in_app_or in Hi. destruct Hi as [Hi|Hi].
+    + cbn in Hi. destruct (has_code code_keepalive (o_opts o) && is_tcp tr) eqn:Ek; [|destruct Hi].
+      destruct Hi as [<-|[]]. apply andb_true_iff in Ek. destruct Ek as [K1 K2].
+      split; [apply own_ka_ok; auto|discriminate].
+    + destruct ede as [x|]; [|destruct Hi]. destruct Hi as [<-|[]]. pose proof (He x eq_refl) as Hc.
+      split; [apply own_ede_ok; exact Hc|rewrite Hc; discriminate].
+Qed.
+
+(* END TO END, byte path: a product of the cache's byte-path producers that ResponseWriter.WriteWire
+   accepts reaches the client with every clause of the statement *)
+Lemma cache_wire_reply_respects_client_l tr c q strict p d h iad hasd ede blen r :
+  let w := mk_wstate tr strict q (set_edns0 c q) in
+  cfg_wf c -> client_ver q = 0 ->
+  produce p (m_hdr q) = Some (h, iad) -> m_hdr d = h -> m_q d = product_q q ->
+  filter is_opt (m_ex d) = [] ->
+  (hasd = false -> asked_rrsig q = true \/ no_dnssec d = true) ->
+  (forall x, ede = Some x -> e_code x = code_ede) ->
+  write_wire tr c w d iad hasd ede blen = Some r ->
+  (h_qr (m_hdr r) = true /\ h_id (m_hdr r) = h_id (m_hdr q) /\ h_opcode (m_hdr r) = h_opcode (m_hdr q))
+  /\ quest_echo q r = true
+  /\ (has_opt r = true -> client_opt q <> None)
+  /\ (client_do q = false -> asked_rrsig q = false -> no_dnssec r = true)
+  /\ (h_cd (m_hdr q) = true \/ (client_do q = false /\ h_ad (m_hdr q) = false) -> h_ad (m_hdr r) = false)
+  /\ options_own tr c (client_opt q) r = true /\ no_ecs_ka tr c (client_opt q) r = true
+  /\ (tr = UDP -> blen + (if w_noedns w then 0 else opt_len (wire_opt c w ede)) <= udp_limit (client_opt q)).
+Proof.
+  intros w Hw Hv Hp Hd Hq Hno Hds He Hww.
+  destruct (write_wire_shape _ _ _ _ _ _ _ _ _ Hww) as (Hg & Han & Hns & Hex).
+  split; [eapply hit_echo_l; eauto|].
+  split; [eapply hit_quest_echo_l; eauto|].
+  assert (Hopts : forall e, In e (all_opts r) -> w_noedns w = false /\ In e (o_opts (wire_opt c w ede))).
+  { intros e Hi. rewrite all_opts_ex in Hi. destruct Hex as [(Hn & Hx & _)|(Hn & Hx & _)]; rewrite Hx in Hi.
+    - rewrite (no_opt_ex_opts _ Hno) in Hi. destruct Hi.
+    - rewrite ex_opts_app, (no_opt_ex_opts _ Hno) in Hi. cbn in Hi. rewrite app_nil_r in Hi. auto. }
+  split.
+  { intros Ho E. unfold has_opt in Ho. destruct Hex as [(Hn & Hx & _)|(Hn & Hx & _)].
+    - rewrite Hx, (existsb_filter_nil _ _ Hno) in Ho. discriminate.
+    - unfold w in Hn. rewrite wstate_noedns, E in Hn by exact Hv. discriminate. }
+  split.
+  { intros Hdo Hr. unfold no_dnssec. rewrite Han, Hns.
+    unfold w in Hg. rewrite wstate_do, Hdo in Hg by exact Hv. cbn in Hg.
+    destruct (Hds Hg) as [C|C]; [rewrite Hr in C; discriminate|exact C]. }
+  split; [intros Hc; eapply hit_ad_clear_l; eauto|].
+  split; [|split].
+  - unfold options_own. apply forallb_forall. intros e Hi. destruct (Hopts e Hi) as [Hn Ho].
+    exact (proj1 (wire_opt_option_ok tr c q strict ede e Hw Hv Hn He Ho)).
+  - unfold no_ecs_ka. apply forallb_forall. intros e Hi. destruct (Hopts e Hi) as [Hn Ho].
+    destruct (wire_opt_option_ok tr c q strict ede e Hw Hv Hn He Ho) as [H1 H2].
+    apply N.eqb_neq in H2. rewrite H2, H1. cbn. apply orb_true_r.
+  - intros ->. unfold w in *. rewrite <- (wstate_size c q strict Hv).
+    destruct Hex as [(Hn & _ & Hs)|(Hn & _ & Hs)]; rewrite Hn; [rewrite N.add_0_r|]; apply Hs; reflexivity.
+Qed.
+
+(* statements of Properties.v proved here (Properties.v holds only `exact`) *)
+Lemma cache_entry_hit_keeps_stored_l :
+  forall hops st q h iad,
+    hit_wire (st :: hops) q = Some (h, iad) ->
+    h_ra h = h_ra st /\ h_tc h = h_tc st /\ h_rcode h = h_rcode st.
+Proof.
+intros hops st q h iad H. destruct (hit_wire_header _ _ _ _ _ H) as (_&_&_&_&_&_&?&?&?). auto. Qed.
+
+Lemma cache_paths_same_header_l :
+  forall q, h_opcode q = 0 ->
+    (forall st, hit_wire [st] q = Some (to_msg_hdr st q, h_ad (to_msg_hdr st q)))
+    /\ (forall alias hops, Forall (fun x => h_rcode x <> rcode_nxdomain) hops ->
+          option_map fst (hit_wire (alias :: hops) q) = produce_msg (MEntry alias (map (sub_of_hop (h_cd q)) hops)) q)
+    /\ (forall stc, h_tc stc = false -> h_z stc = false -> option_map fst (produce PCut q) = produce_msg (MCut stc) q)
+    /\ option_map fst (produce PFailure q) = produce_msg MFailure q.
+Proof.
+intros q E. split; [intros; apply to_msg_is_hit_wire; exact E|].
+  split; [intros; apply chase_paths_agree; assumption|].
+  split; [intros; apply cut_paths_agree; assumption|apply failure_paths_agree; exact E].
+Qed.
+
+Lemma cache_products_are_replies_l :
+  forall q d, length (m_q q) = 1%nat -> m_q d = product_q q ->
+    (forall p h, produce_msg p (m_hdr q) = Some h -> m_hdr d = h -> dn_echo q d)
+    /\ (forall p h iad, produce p (m_hdr q) = Some (h, iad) -> m_hdr d = h -> dn_echo q d).
+Proof.
+intros q d Hl Hq. split; intros.
+  - eapply cache_msg_product_dn_echo; eauto.
+  - eapply cache_wire_product_dn_echo; eauto.
+Qed.
